@@ -1,12 +1,12 @@
 #!/usr/bin/env python3
 import json, os, sys
 sys.path.insert(0, os.path.join(os.path.dirname(__file__), ".."))
-from vlib.registry import CHECKS, NOT_YET
+from vlib.registry import CHECKS, NOT_YET, READY_D
 root = os.path.join(os.path.dirname(__file__), "..")
 rd = os.path.join(root, "registry.d")
 if os.path.isdir(rd):
     for f in sorted(os.listdir(rd)):
-        if f.endswith(".json"):
+        if f.endswith(".json") and f[:-5] in READY_D:
             CHECKS[f[:-5]] = json.load(open(os.path.join(rd, f)))
 props = [json.loads(l) for l in open(os.path.join(root, "properties.jsonl"))]
 checks, na = [], []
